@@ -112,7 +112,9 @@ type commitTarget struct {
 	nl        *staticNodes
 }
 
-type staticNodes struct{ nodes map[signature.PublicKey]*node.Node }
+type staticNodes struct {
+	nodes map[signature.PublicKey]*node.Node
+}
 
 func (s *staticNodes) Node(_ context.Context, id signature.PublicKey) (*node.Node, error) {
 	if n := s.nodes[id]; n != nil {
@@ -330,7 +332,9 @@ type descTarget struct {
 	now     time.Time
 }
 
-type staticRuntimes struct{ m map[common.Namespace]*registry.Runtime }
+type staticRuntimes struct {
+	m map[common.Namespace]*registry.Runtime
+}
 
 func (s *staticRuntimes) Runtime(_ context.Context, id common.Namespace) (*registry.Runtime, error) {
 	if r := s.m[id]; r != nil {
@@ -355,7 +359,9 @@ func (s *staticRuntimes) Runtimes(ctx context.Context) ([]*registry.Runtime, err
 	return s.AllRuntimes(ctx)
 }
 
-type staticNodeLookup struct{ bySub map[signature.PublicKey]*node.Node }
+type staticNodeLookup struct {
+	bySub map[signature.PublicKey]*node.Node
+}
 
 func (s *staticNodeLookup) NodeBySubKey(_ context.Context, k signature.PublicKey) (*node.Node, error) {
 	if n := s.bySub[k]; n != nil {
